@@ -137,6 +137,18 @@ CLAIMED.update({
     },
 })
 
+CLAIMED.update({
+    "C31": {
+        "technique": "static analysis: exhaustive path enumeration over MIR with symbolic guards (atomic read/write of (expr, generation), monotone cache edge, lock graph) + finite gate table vs join model",
+        "level": ("Static, all paths: current() takes expression and generation from one read guard; update() stores the new expression with "
+                  "generation+1 under one write guard and notifies after release; the remap cache is overwritten only on the "
+                  "generation > cached edge; no function of the module nests the inner and cache locks; and the hash-join gate can enable "
+                  "probe-side dynamic filters only for join types where dropping unmatched probe rows is an identity in the reference "
+                  "model (exhaustive over 10 types). This decides the second sentence of the property and one gate of the first; the "
+                  "contents of bounds / IN lists and timing are not decided."),
+    },
+})
+
 NA = {
     'C01': 'whole-pipeline value semantics over all queries x all table contents: functional verification, no clause visible in code shape beyond C03/C05/C47',
     'C08': 'ordering/permutation of runtime values (loser tree, cursors, heaps are value algorithms); no structural clause',
